@@ -236,7 +236,14 @@ def gen_core_script(rng, logic=None, minimal=None, full=None, incremental=None, 
         asserted.append((f, named))
 
     def noise():
-        return g.formula(r.randint(1, 2))
+        # non-Boolean ite terms (IteHandler introduces auxiliary constants) only in a minority of the scripts
+        for _ in range(20):
+            f = g.formula(r.randint(1, 2))
+            if "(ite " not in f or r.random() < 0.15 * risky:
+                break
+        if "(ite " in f:
+            feats.add("ite-in-noise")
+        return f
 
     def one_problem(close=True):
         """emit one kit with redundancy and noise, shuffled; returns number of assertions emitted"""
